@@ -84,11 +84,16 @@ impl ConstraintAnalysis {
 
     /// Returns variables constrained in one or more steps by `source`.
     pub fn multi_step_constraint(&self, source: &VariableName) -> HashSet<VariableName> {
+        // Each variable is expanded once, so the work is linear in the number
+        // of constraint steps reachable from `source`.
         let mut result = HashSet::new();
-        let mut update = self.single_step_constraint(source);
-        while !update.is_subset(&result) {
-            result.extend(update.iter().cloned());
-            update = update.iter().flat_map(|source| self.single_step_constraint(source)).collect();
+        let mut work_list: Vec<_> = self.constraint_map.get(source).into_iter().flatten().collect();
+        while let Some(source) = work_list.pop() {
+            if result.insert(source.clone()) {
+                if let Some(sinks) = self.constraint_map.get(source) {
+                    work_list.extend(sinks.iter().filter(|sink| !result.contains(*sink)));
+                }
+            }
         }
         result
     }
